@@ -116,6 +116,8 @@ def div(n, kinds=("Ret",)):
         c = lit(n["c"])
         t = div(n["t"], kinds)
         e = div(n["e"], kinds) if "e" in n else FALSE
+        if t == TRUE and e == TRUE:
+            return TRUE            # both branches leave: the `if` always leaves, whatever its condition
         return f_or(f_and(c, t), f_and(f_not(c), e))
     if k == "Match":
         # not decomposed: diverges for sure only if every arm does
